@@ -71,7 +71,7 @@ func loadBasictl(c *Check) []*bctx {
 	for _, cp := range basictlCopies {
 		b := &bctx{c: c, co: co, pkg: cp.name, funcs: funcs, byName: map[string]*FuncInfo{}, irs: map[string]*FuncIR{}}
 		for _, fi := range funcs {
-			if strings.HasSuffix(fi.Pkg.PkgPath, strings.TrimPrefix(cp.pattern, ".")) && fi.Obj.Type().(*types.Signature).Recv() == nil {
+			if fi.Pkg.PkgPath == "github.com/VKCOM/tl"+strings.TrimPrefix(cp.pattern, ".") && fi.Obj.Type().(*types.Signature).Recv() == nil {
 				b.byName[fi.Obj.Name()] = fi
 			}
 		}
